@@ -317,8 +317,11 @@ def property_diff(ws, re):
         return ('malformed-reimport', '%s: %s' % (type(e).__name__, e))
     r = diff(ref['channels'], ob['channels'], 'channels')
     if r:
-        depth = len(r.split(':')[0].split('/'))
-        kind = 'modifier-data' if depth >= 8 else 'modifiers' if depth >= 6 else 'yields' if depth >= 5 else 'channels'
+        parts = r.split(':')[0].split('/')
+        depth = len(parts)
+        # channels/<channel>/1/<sample>/1[/bin] is the yield list of a sample, .../2[/<modifier>[/2[/...]]] its modifiers
+        kind = ('yields' if depth >= 5 and parts[4] == '1' else
+                'modifier-data' if depth >= 8 else 'modifiers' if depth >= 6 else 'yields' if depth >= 5 else 'channels')
         return (kind, r)
     r = diff(ref['observations'], ob['observations'], 'observations')
     if r:
@@ -540,12 +543,16 @@ def gen_ws_once(rng):
                 c['inits'] = [c['inits'][0] + 0.25]          # a measurement configured differently from the first
             ps.append(c)
         for n in fixable + (['lumi'] if ps and ps[0]['name'] == 'lumi' else []):
-            if rng.random() < 0.25:
+            # the constant flag in all three spellings: "fixed": true, "fixed": false written out (what readxml itself emits for Const="False",
+            # what hand-edited workspaces hold), and no key at all
+            r = rng.random()
+            if r < 0.40:
+                flag = r < 0.25
                 e = [p for p in ps if p['name'] == n]
                 if e:
-                    e[0]['fixed'] = True
+                    e[0]['fixed'] = flag
                 else:
-                    ps.append({'name': n, 'fixed': True})
+                    ps.append({'name': n, 'fixed': flag})
         rng.shuffle(ps)
         meas.append({'name': 'meas%d' % k, 'config': {'poi': 'mu', 'parameters': ps}})
     return {'channels': channels, 'observations': obs, 'measurements': meas, 'version': '1.0.0'}
@@ -604,6 +611,85 @@ def inject(rng, ws, fault):
         ws['measurements'][0]['config']['parameters'] = [p for p in p0 if p['name'] != 'mu'] + [{'name': 'mu', 'inits': [2.0], 'bounds': [[0.0, 8.0]]}]
         p1 = ws['measurements'][1]['config']['parameters']
         p1[:] = [p for p in p1 if p['name'] != 'mu'] + [{'name': 'mu', 'inits': [3.0], 'bounds': [[0.0, 9.0]]}]
+    return ws
+
+
+COLLISION_KINDS = ['cross-channel', 'sample-vs-binwise', 'sample-vs-histosys', 'sample+modifier-split']
+
+
+def collide(rng, ws, kind):
+    """names whose `_`-joined histogram names coincide or nearly coincide (every histogram of a workspace goes into one ROOT file under
+    hist<channel>_<sample>[_<modifier>][Low|High]).  Returns the renamed / extended workspace; whether it really collides is decided by
+    hist_names() afterwards (the near misses are ordinary workspaces: they must round-trip)."""
+    ws = copy.deepcopy(ws)
+    near = rng.random() < 0.3
+    ci = rng.randrange(len(ws['channels']))
+    c = ws['channels'][ci]
+    s = rng.choice(c['samples'])
+    nb = len(s['data'])
+
+    def fresh_sample(name, like):
+        data = [round(abs(x) * rng.uniform(2.0, 6.0) + rng.choice([1.0, 7.5, 20.0]), 2) for x in like]
+        mods = [] if rng.random() < 0.5 else [{'name': 'coll_norm', 'type': 'normsys', 'data': {'hi': 1.08, 'lo': 0.93}}]
+        return {'name': name, 'data': data, 'modifiers': mods}
+
+    def put(samples, new, ref):
+        k = samples.index(ref)
+        samples.insert(k + rng.choice([0, 1]), new)
+    if kind == 'cross-channel':
+        P, Q = rng.choice([('ttbar', 'bkg'), ('a', 'b'), ('top', 'x'), ('W', 'jets_lo')])
+        s['name'] = P + '_' + Q
+        others = [x for k, x in enumerate(ws['channels']) if k != ci]
+        newname = c['name'] + '_' + P
+        if others and rng.random() < 0.6:
+            o = rng.choice(others)
+            for ob in ws['observations']:
+                if ob['name'] == o['name']:
+                    ob['name'] = newname
+            for x in o['samples']:
+                for m in x['modifiers']:
+                    if m['type'] == 'staterror':
+                        m['name'] = 'staterror_' + newname
+            o['name'] = newname
+        else:
+            o = {'name': newname, 'samples': [fresh_sample('other', s['data'])]}
+            ws['channels'].insert(rng.randrange(len(ws['channels']) + 1), o)
+            ws['observations'].append({'name': newname, 'data': [round(x * 1.1 + 3.0, 1) for x in o['samples'][0]['data']]})
+        t = rng.choice(o['samples'])
+        t['name'] = Q + ('2' if near else '')
+        seen = set()
+        o['samples'] = [x for x in o['samples'] if not (x['name'] in seen or seen.add(x['name']))]
+    elif kind == 'sample-vs-binwise':
+        bw = [m for m in s['modifiers'] if m['type'] in ('shapesys', 'staterror')]
+        if near:      # the same names with a histosys: hist.._x_sysLow / ..High next to hist.._x_sys do not collide
+            M = 'sys'
+            s['modifiers'] = [m for m in s['modifiers'] if m['name'] != M] + [
+                {'name': M, 'type': 'histosys', 'data': {'hi_data': [x * 1.1 + 0.5 for x in s['data']], 'lo_data': [x * 0.9 for x in s['data']]}}]
+            for x in ws['channels']:
+                for y in x['samples']:
+                    if y is not s:
+                        y['modifiers'] = [m for m in y['modifiers'] if m['name'] != M]
+        elif bw:
+            M = rng.choice(bw)['name']
+        else:
+            M = 'ss_' + rng.choice(['sys', 'stat_x'])
+            s['modifiers'].append({'name': M, 'type': 'shapesys', 'data': [round(abs(x) * 0.1 + 0.5, 3) for x in s['data']]})
+        put(c['samples'], fresh_sample(s['name'] + '_' + M, s['data']), s)
+    elif kind == 'sample-vs-histosys':
+        hs = [m for m in s['modifiers'] if m['type'] == 'histosys']
+        if hs:
+            M = rng.choice(hs)['name']
+        else:
+            M = 'shape_c'
+            s['modifiers'].append({'name': M, 'type': 'histosys', 'data': {'hi_data': [x * 1.1 + 0.5 for x in s['data']], 'lo_data': [x * 0.9 for x in s['data']]}})
+        put(c['samples'], fresh_sample(s['name'] + '_' + M + rng.choice(['Low', 'High']) + ('er' if near else ''), s['data']), s)
+    elif kind == 'sample+modifier-split':
+        # hist<ch>_<S>_<c_d> (sample S, bin-wise modifier c_d) against hist<ch>_<S_c>_<d> (sample S_c, bin-wise modifier d)
+        s['modifiers'] = [m for m in s['modifiers'] if m['type'] != 'shapesys'] + [
+            {'name': 'c_d', 'type': 'shapesys', 'data': [round(abs(x) * 0.1 + 0.5, 3) for x in s['data']]}]
+        t = fresh_sample(s['name'] + '_c', s['data'])
+        t['modifiers'].append({'name': 'd' + ('d' if near else ''), 'type': 'shapesys', 'data': [round(x * 0.05 + 0.25, 3) for x in t['data']]})
+        put(c['samples'], t, s)
     return ws
 
 
@@ -738,6 +824,53 @@ def check_cycle(ctx, ws, d, rng, label, do_logpdf=True):
                           dict(kind='cycle', ws=ws, impl=dict(reimported=real['ws']), detail=detail, theorem='C18_roundtrip_likelihood_partial', label=label))
             found = True
     return real, found
+
+
+def check_collision(ctx, ws, d, rng, label):
+    """a workspace two of whose histograms get the same name in the ROOT file: exactly two outcomes are acceptable -- the export is refused
+    with an exception, or the round trip recovers the model (the property as stated, checked as for any other workspace)"""
+    real = real_cycle(copy.deepcopy(ws), d)
+    hn = hist_names(ws)
+    dup = sorted({h for h in hn if hn.count(h) > 1})
+    if real['outcome'].startswith('export:'):
+        return real, False
+
+    def body(small, what):
+        r2 = real_cycle(copy.deepcopy(small), d + '-shrink')
+        return dict(kind='cycle', ws=small, refusal_accepted=True, colliding_histogram_names=dup,
+                    impl=dict(outcome=r2['outcome'], reimported=r2.get('ws'), msg=r2.get('msg')),
+                    expected=dict(either='export raises', or_reimported=reference(small)), difference=what,
+                    theorem='C18_roundtrip_model (write refuses duplicate histogram names: EDupHist)', label=label)
+    if real['outcome'] != 'ok':
+        def fails(w):
+            r = real_cycle(copy.deepcopy(w), d + '-shrink')
+            return r['outcome'] if r['outcome'].startswith('import:') else None
+        small = shrink(ws, fails)
+        ctx.violation('name-collision:import-crash', 'two histograms share the name %s: the export was not refused and the re-import raised %s (%s)'
+                      % (dup[:2], real['outcome'], real.get('msg', '')[:120]), body(small, real['outcome']))
+        return real, True
+    pd = property_diff(ws, real['ws'])
+    if pd:
+        def fails(w):
+            r = real_cycle(copy.deepcopy(w), d + '-shrink')
+            if r['outcome'] != 'ok':
+                return None
+            x = property_diff(w, r['ws'])
+            return x[0] if x else None
+        small = shrink(ws, fails)
+        r2 = real_cycle(copy.deepcopy(small), d + '-shrink')
+        pd2 = property_diff(small, r2['ws']) or pd
+        ctx.violation('name-collision:' + pd[0], 'two histograms share the name %s: the export was not refused and the re-imported workspace differs '
+                      'from the original in %s: %s' % (dup[:2], pd[0], pd2[1]), body(small, pd2[1]))
+        return real, True
+    if lossless(ws):
+        st, detail = logpdf_compare(ws, real['ws'], rng)
+        real['logpdf'] = (st, detail)
+        if st in ('differs', 'reimport-fails'):
+            ctx.violation('name-collision:likelihood', 'two histograms share the name %s: the export was not refused and Model.logpdf of the '
+                          're-imported workspace differs: %s' % (dup[:2], detail), body(ws, detail))
+            return real, True
+    return real, False
 
 
 # ----------------------------------------------------------------------------------------------------------------------
@@ -926,7 +1059,8 @@ def run(ctx):
     found = False
     stats = dict(cycles=0, faults={}, outcomes={}, modifier_types={}, lumi_values={}, int_yield_cases=0, lossy_cases=0,
                  logpdf={}, measurements={}, guards_true=0, negative_yield_cases=0, negative_yield_with_binwise_uncertainty=0,
-                 zero_uncertainty_on_filled_bin=0, negative_uncertainty=0, full_precision_cases=0, small_or_large_magnitude_cases=0)
+                 zero_uncertainty_on_filled_bin=0, negative_uncertainty=0, full_precision_cases=0, small_or_large_magnitude_cases=0,
+                 explicit_fixed_false_cases=0, near_collision_cases=0, name_collisions={})
     sigs = set()
 
     # ---- cases: corpus + targeted first, then generated ----
@@ -946,7 +1080,16 @@ def run(ctx):
     ngen = ctx.n(100, 1200)
     for i in range(ngen):
         ws = gen_ws(rng)
-        if rng.random() < 0.22:
+        if rng.random() < 0.14:
+            # colliding and nearly colliding names: a collision must be refused at export or round-trip; a near miss is an ordinary workspace
+            kind = COLLISION_KINDS[i % len(COLLISION_KINDS)]
+            w2 = collide(rng, ws, kind)
+            hn = hist_names(w2)
+            if len(set(hn)) != len(hn):
+                cases.append(dict(ws=w2, fault='name-collision', label='gen%d:collision:%s' % (i, kind)))
+            else:
+                cases.append(dict(ws=w2, fault=None, label='gen%d:near-collision:%s' % (i, kind)))
+        elif rng.random() < 0.22:
             f = FAULTS[i % len(FAULTS)]
             cases.append(dict(ws=inject(rng, ws, f), fault=f, label='gen%d' % i))
         else:
@@ -992,6 +1135,8 @@ def run(ctx):
         stats['full_precision_cases'] += any(isinstance(v, float) and len(repr(v)) > 12 for v in xmlnums)
         yields = [abs(x) for ch in ws['channels'] for s in ch['samples'] for x in s['data'] if x != 0]
         stats['small_or_large_magnitude_cases'] += bool(yields) and (max(yields) < 0.1 or min(yields) > 1000)
+        stats['explicit_fixed_false_cases'] += any(p.get('fixed') is False for m in ws['measurements'] for p in m['config']['parameters'])
+        stats['near_collision_cases'] += 'near-collision' in c['label']
         if c['fault'] is None:
             real, f = check_cycle(ctx, ws, d, rng, c['label'])
             found = found or f
@@ -999,6 +1144,12 @@ def run(ctx):
                 stats['logpdf'][real['logpdf'][0]] = stats['logpdf'].get(real['logpdf'][0], 0) + 1
             if nontrivial(ws):
                 sigs.add(hashlib.sha1(json.dumps(ws, sort_keys=True).encode()).hexdigest())
+        elif c['fault'] == 'name-collision':
+            stats['faults'][c['fault']] = stats['faults'].get(c['fault'], 0) + 1
+            real, f = check_collision(ctx, ws, d, rng, c['label'])
+            found = found or f
+            key = 'refused' if real['outcome'].startswith('export:') else real['outcome']
+            stats['name_collisions'][key] = stats['name_collisions'].get(key, 0) + 1
         else:
             stats['faults'][c['fault']] = stats['faults'].get(c['fault'], 0) + 1
             real = real_cycle(copy.deepcopy(ws), d)
@@ -1177,6 +1328,12 @@ def replay(body):
     if kind == 'cycle':
         r = real_cycle(copy.deepcopy(body['ws']), os.path.join(work, 'cycle'))
         print('outcome:', r['outcome'], r.get('msg', ''))
+        if body.get('refusal_accepted') or body.get('fault') == 'name-collision':
+            hn = hist_names(body['ws'])
+            print('histogram names used twice:', sorted({h for h in hn if hn.count(h) > 1}), '-- acceptable: export raises, or the round trip recovers the model')
+            if r['outcome'].startswith('export:'):
+                print('property: holds (export refused)')
+                return 0
         if r['outcome'] == 'ok':
             print('LumiRelErr etc.:', r.get('xml_measurements'))
             pd = property_diff(body['ws'], r['ws'])
